@@ -210,6 +210,14 @@ fn c09_zone(r: &mut Rng) -> (String, Vec<Rec>) {
             ttl: 300,
         },
         Rec::new(&child_name("leaf", &h("mid")), "TXT deep", 300),
+        // a wildcard alias, matched one or more labels down, and an alias into it
+        Rec {
+            owner: h("wa"),
+            wild: true,
+            data: format!("CNAME {}", h("www")),
+            ttl: 300,
+        },
+        Rec::new(&h("alias3"), &format!("CNAME {}", child_name("p.q", &h("wa"))), 300),
     ];
     // a record set too large for one UDP datagram
     let n_big = r.range(30, 60);
@@ -290,7 +298,7 @@ fn gen_c09(seed: u64, _index: u64, tier: Tier) -> ServerPlan {
         });
         u
     };
-    let names_local = ["www", "mail", "txt", "alias", "alias2", "dangling", "deleg", "below.deleg", "x.w", "mid", "leaf.mid", "big", "edge", "nothing", "pad0", "pad1", "pad2", "pad2", "pad3", "pad4"];
+    let names_local = ["www", "mail", "txt", "alias", "alias2", "dangling", "deleg", "below.deleg", "x.w", "x.y.w", "x.wa", "x.y.wa", "x.y.z.wa", "alias3", "mid", "leaf.mid", "big", "edge", "nothing", "pad0", "pad1", "pad2", "pad2", "pad3", "pad4"];
     let mut names: Vec<String> = names_local.iter().map(|n| child_name(n, &apex)).collect();
     names.push(apex.clone());
     names.push("ads.example.net.".into());
@@ -1027,6 +1035,22 @@ fn gen_c19(seed: u64, _index: u64, tier: Tier) -> ServerPlan {
         if r.chance(0.25) {
             operator.push(OperatorStep { at_ms: t0 + 5 + r.range(0, 30), action: OperatorAction::Signal });
         }
+        // the operator is quick: another edit and another signal while the reload
+        // just asked for may still be reading files
+        if !present.is_empty() && r.chance(0.35) {
+            let mut at = t0 + 5;
+            for _ in 0..r.range(1, 2) {
+                version += 1;
+                at += *r.pick(&[1u64, 2, 3, 5, 8, 13, 21, 34, 55]);
+                let (p, a) = r.pick(&present).clone();
+                operator.push(OperatorStep {
+                    at_ms: at,
+                    action: OperatorAction::Write { path: p, content: c19_zone_content(&a, version, r.chance(0.5)) },
+                });
+                at += *r.pick(&[1u64, 2, 5]);
+                operator.push(OperatorStep { at_ms: at, action: OperatorAction::Signal });
+            }
+        }
         operator.push(OperatorStep { at_ms: t0 + phase_len - 100, action: OperatorAction::Snapshot });
         // queries before, during and after the reload
         for _ in 0..r.range(2, 8) {
@@ -1244,6 +1268,78 @@ fn oracle_c19(plan: &ServerPlan, obs: &ServerObs, seed: u64) -> RunResult {
                             FsEvent::Read { path, outcome } => format!("read {} {}", path.file_name().map_or_else(String::new, |f| f.to_string_lossy().to_string()), match outcome { simseam::fs::FsOutcome::Ok(s) => format!("{} bytes", s.len()), simseam::fs::FsOutcome::Err(k) => format!("{k:?}") }),
                             FsEvent::Mark { .. } => String::new(),
                         }).collect::<Vec<_>>()})),
+                    })),
+            );
+        }
+    }
+    // the last word: once the operator's last signal came after the last edit, and
+    // the load that signal started met no fault, the configuration in force is what
+    // the files say now - whatever the server did or did not read
+    for (t, snap) in snapshots {
+        use crate::server_engine::OperatorAction;
+        let before: Vec<&crate::server_engine::OperatorStep> = plan.operator.iter().filter(|s| s.at_ms <= *t).collect();
+        let last_signal = before.iter().filter(|s| matches!(s.action, OperatorAction::Signal)).map(|s| s.at_ms).max();
+        let last_edit = before
+            .iter()
+            .filter(|s| matches!(s.action, OperatorAction::Write { .. } | OperatorAction::Remove { .. } | OperatorAction::Mkdir { .. }))
+            .map(|s| s.at_ms)
+            .max();
+        let Some(t_sig) = last_signal else { continue };
+        if last_edit.is_some_and(|e| e >= t_sig) {
+            continue;
+        }
+        // the load that signal started: after the last delivery at or after it
+        let Some((_, events)) = loads.iter().skip(1).rev().find(|(at, _)| *at >= t_sig && *at <= *t) else {
+            continue;
+        };
+        let faulty = events.iter().any(|e| {
+            matches!(
+                e,
+                FsEvent::List { outcome: simseam::fs::FsOutcome::Err(_), .. }
+                    | FsEvent::Read { outcome: simseam::fs::FsOutcome::Err(_), .. }
+            )
+        });
+        if faulty {
+            continue;
+        }
+        // the files as they are at the snapshot
+        let mut files: BTreeMap<String, String> = plan.files.iter().map(|f| (f.path.clone(), f.content.clone())).collect();
+        for s in &before {
+            match &s.action {
+                OperatorAction::Write { path, content } => {
+                    files.insert(path.clone(), content.clone());
+                }
+                OperatorAction::Remove { path } => {
+                    files.remove(path);
+                }
+                _ => {}
+            }
+        }
+        let mut truth_events: Vec<FsEvent> = Vec::new();
+        for d in plan.args.zones_dir.iter().chain(plan.args.hosts_dir.iter()) {
+            let mut entries: Vec<std::path::PathBuf> = files
+                .keys()
+                .filter(|p| p.strip_prefix(&format!("{d}/")).is_some_and(|rest| !rest.contains('/')))
+                .map(|p| obs.root.join(p))
+                .collect();
+            entries.sort();
+            truth_events.push(FsEvent::List { dir: obs.root.join(d), outcome: simseam::fs::FsOutcome::Ok(entries) });
+        }
+        for (p, c) in &files {
+            truth_events.push(FsEvent::Read { path: obs.root.join(p), outcome: simseam::fs::FsOutcome::Ok(c.clone()) });
+        }
+        let Some(truth) = replay_load(seed, &obs.root, &plan.args, &truth_events) else {
+            // the files do not load: the previous configuration stays, judged above
+            continue;
+        };
+        bump(&mut res.stats, "probe.snapshot_compared_with_the_files_themselves");
+        if let Some(apex) = zones_equal(snap, &truth) {
+            res.violations.push(
+                Violation::new("c19.last_edit_never_went_live")
+                    .fact("reload_read_nothing", events.is_empty())
+                    .detail(json!({
+                        "at_ms": t, "last_signal_at": t_sig, "last_edit_at": last_edit, "differs_at_apex": apex,
+                        "files_read_by_the_last_reload": events.len(),
                     })),
             );
         }
